@@ -55,6 +55,8 @@ pub struct Geo {
     pub mh: u32,
     pub tail: u32,
     pub px: usize,
+    /// bytes in front of the image inside the backing allocation (deliberate misalignment)
+    pub off: usize,
 }
 
 pub fn geo(img: &Img, pt: Pt) -> Geo {
@@ -81,6 +83,7 @@ pub fn geo(img: &Img, pt: Pt) -> Geo {
         mh,
         tail,
         px: pt.size(),
+        off: if matches!(k, Kind::Buffer | Kind::DynSlice | Kind::DynImgAsSrc) { (img.misalign & 3) as usize } else { 0 },
     }
 }
 
@@ -94,7 +97,7 @@ pub struct Backing {
 impl Backing {
     pub fn new(img: &Img, pt: Pt, tag: u8) -> Backing {
         let g = geo(img, pt);
-        let len = (g.ph as usize * g.stride + g.tail as usize) * g.px;
+        let len = (g.ph as usize * g.stride + g.tail as usize) * g.px + g.off;
         let vec = {
             let _z = zone::enter(zone::USER);
             arena::next_alloc(tag, img.place.clamp(1, 2), pt.align().max(1));
@@ -109,26 +112,33 @@ impl Backing {
     }
     #[allow(clippy::mut_from_ref)]
     pub unsafe fn raw_bytes_mut(&self) -> &'static mut [u8] {
-        std::slice::from_raw_parts_mut(self.vec.as_ptr() as *mut u8, self.vec.len())
+        std::slice::from_raw_parts_mut((self.vec.as_ptr() as *mut u8).add(self.g.off), self.vec.len() - self.g.off)
     }
     pub unsafe fn raw_bytes(&self) -> &'static [u8] {
-        std::slice::from_raw_parts(self.vec.as_ptr(), self.vec.len())
+        std::slice::from_raw_parts(self.vec.as_ptr().add(self.g.off), self.vec.len() - self.g.off)
     }
+    // typed slices are only taken from stores without a misalignment prefix
     pub unsafe fn raw_pixels<P>(&self) -> &'static [P] {
+        debug_assert!(self.g.off == 0);
         std::slice::from_raw_parts(self.vec.as_ptr() as *const P, self.vec.len() / self.g.px)
     }
     pub unsafe fn raw_pixels_mut<P>(&self) -> &'static mut [P] {
+        debug_assert!(self.g.off == 0);
         std::slice::from_raw_parts_mut(self.vec.as_ptr() as *mut P, self.vec.len() / self.g.px)
     }
     /// byte range of logical row `y`
     pub fn row_range(&self, y: u32) -> (usize, usize) {
         let g = &self.g;
-        let start = ((g.oy + y) as usize * g.stride + g.ox as usize) * g.px;
+        let start = ((g.oy + y) as usize * g.stride + g.ox as usize) * g.px + g.off;
         (start, start + g.w as usize * g.px)
     }
     /// is byte offset `i` inside the logical rectangle?
     pub fn in_rect(&self, i: usize) -> bool {
         let g = &self.g;
+        if i < g.off || g.stride == 0 {
+            return false;
+        }
+        let i = i - g.off;
         let p = i / g.px;
         let y = p / g.stride;
         let x = p % g.stride;
